@@ -118,7 +118,7 @@ def free_udp_port(family=socket.AF_INET):
 
 class Server:
     def __init__(self, binary, directory, *, single=False, read_only=False, overwrite=False, keep=False, send_dir=None, recv_dir=None,
-                 dup=None, ip="127.0.0.1", logdir=None, strace=None, extra=(), tag="srv"):
+                 dup=None, ip="127.0.0.1", logdir=None, strace=None, extra=(), tag="srv", shuffle=None):
         self.binary, self.ip = binary, ip
         self.family = socket.AF_INET6 if ":" in ip else socket.AF_INET
         self.args = ["-i", ip, "-d", directory]
@@ -137,6 +137,19 @@ class Server:
         if dup is not None:
             self.args += ["--duplicate-packets", str(dup)]
         self.args += list(extra)
+        if shuffle is not None:
+            # flag order must not matter: permute the option groups (a value stays behind its flag)
+            groups, i = [], 0
+            takes = {"-i", "-d", "-sd", "-rd", "--duplicate-packets", "-p"}
+            while i < len(self.args):
+                if self.args[i] in takes:
+                    groups.append(self.args[i:i + 2])
+                    i += 2
+                else:
+                    groups.append(self.args[i:i + 1])
+                    i += 1
+            shuffle.shuffle(groups)
+            self.args = [a for g in groups for a in g]
         self.single = single
         self.logdir = logdir or directory
         self.tag = tag
